@@ -28,7 +28,7 @@ func c03(p *core.Prog, r *core.Report) {
 	a := frameInv(p, r, "C03-INV")
 	c03Sinks(p, r, a, "C03-R1", peerFuncs(p, false))
 	c03Panics(p, r)
-	c03ReaderLoop(p, r)
+	c03ReaderLoop(p, r, "C03-R3")
 	c03Loops(p, r)
 	// the relay-timer panics ("only stopped or completed timers can be
 	// released") are unreachable from peer data only while an id present in
@@ -37,6 +37,16 @@ func c03(p *core.Prog, r *core.Report) {
 	c09Forget(p, r)
 	r.Alias("C09-R4", "")
 	c03LockOrder(p, r, "C03-R5")
+	// a map read, iterated or written concurrently with a write makes the Go
+	// runtime abort the whole process (not a recoverable panic): the maps of
+	// the guarded table, all of which peer-driven code reaches (unknown
+	// service names, new exchanges, relay items, introspection requests), are
+	// only touched with their lock held in the right mode (shared with C04-R1)
+	r.Rule("C03-R6", "E4 locksets", 20, "guarded maps are accessed under their lock (a concurrent map access aborts the process)")
+	guardedAccesses(p, r, p.ComputeLocks(), "C03-R6", func(typ, field string, fld *types.Var) bool {
+		_, isMap := fld.Type().Underlying().(*types.Map)
+		return isMap
+	})
 }
 
 // reviewedPanics: explicit panics on the reader's synchronous call tree that
@@ -147,7 +157,7 @@ func panicText(pn *ssa.Panic) string {
 	return desc(v)
 }
 
-func c03ReaderLoop(p *core.Prog, r *core.Report) {
+func c03ReaderLoop(p *core.Prog, r *core.Report, rule string) {
 	f := mustFunc(p, r, "", "Connection", "readFrames")
 	if f == nil {
 		return
@@ -213,7 +223,20 @@ func c03ReaderLoop(p *core.Prog, r *core.Report) {
 			}
 			break
 		}
-		r.Check(okAll, "C03-R3", fname(f), "error of "+k+" -> error handler -> return", p.Pos(c.Pos()), "the failing arm calls the connection error handler and leaves the reader loop", "a read error does not reach the connection error handler, or the loop continues after it")
+		r.Check(okAll, rule, fname(f), "error of "+k+" -> error handler -> return", p.Pos(c.Pos()), "the failing arm calls the connection error handler and leaves the reader loop", "a read error does not reach the connection error handler, or the loop continues after it")
+		// ... for every error: the frame is handed on only under err == nil
+		// of this read (an ignored io.EOF or short read leaves the pooled
+		// frame's previous payload under the new header: a stale body of the
+		// right size parses and its checksum verifies)
+		for _, d := range p.CallsDeep(f, 0, "Connection.handleFrameRelay", "Connection.handleFrameNoRelay") {
+			di, isI := d.(ssa.Instruction)
+			if !isI || di.Parent() != f {
+				continue
+			}
+			okD := factsAt(di.Block()).nilCmp(func(v ssa.Value) bool { return v == errV }, true)
+			r.Check(okD, rule, fname(f), "frame dispatched ("+calleeShort(d)+") only if "+k+" returned no error", p.Pos(d.Pos()),
+				"dominated by err == nil of the read", "a frame can be dispatched although "+k+" failed (some error value is let through): its payload is whatever the pooled buffer held before")
+		}
 	})
 	if n < 2 {
 		r.Errorf("readFrames: expected a header read and a body read, found %d", n)
@@ -249,6 +272,18 @@ func c03Loops(p *core.Prog, r *core.Report) {
 	reach := syncReach(p, readerRoots(p, r)...)
 	for _, f := range peerFuncs(p, false) {
 		reach[f] = true
+	}
+	// the thrift transport adapter pulls argument bytes on the handler's
+	// goroutine: its loops run on peer data as well
+	nT := 0
+	for _, f := range p.SrcFuncs {
+		if recv := f.Signature.Recv(); recv != nil && shortTypeName(recv.Type()) == "thrift.readWriterTransport" {
+			reach[f] = true
+			nT++
+		}
+	}
+	if nT == 0 {
+		r.Errorf("thrift.readWriterTransport has no methods (anchor moved)")
 	}
 	// functions that contain a blocking operation, and everything that can call them
 	blocking := map[*ssa.Function]bool{}
@@ -394,6 +429,42 @@ func classifyLoop(p *core.Prog, f *ssa.Function, l *core.Loop, mayBlock map[*ssa
 		return false
 	}
 	if everyCyclePasses(f, l, blockingStep) {
+		// a Read that has reported an error does not block any more (errors
+		// of argument readers and sockets are sticky): a loop that calls Read
+		// again must leave on any error, i.e. its back edges carry err == nil
+		for b := range l.Blocks {
+			for _, i := range b.Instrs {
+				c, ok := i.(*ssa.Call)
+				if !ok {
+					continue
+				}
+				name := ""
+				if c.Call.IsInvoke() {
+					name = c.Call.Method.Name()
+				} else if g := c.Call.StaticCallee(); g != nil {
+					name = g.Name()
+				}
+				tup, isTup := c.Type().(*types.Tuple)
+				if name != "Read" || !isTup || tup.Len() != 2 || tup.At(1).Type().String() != "error" {
+					continue
+				}
+				var errV ssa.Value
+				for _, ref := range *c.Referrers() {
+					if e, isE := ref.(*ssa.Extract); isE && e.Index == 1 {
+						errV = e
+					}
+				}
+				for _, latch := range h.Preds {
+					if !l.Blocks[latch] {
+						continue
+					}
+					fs := factsAt(latch).add(edgeFacts(latch, h))
+					if errV == nil || !fs.nilCmp(func(v ssa.Value) bool { return v == errV }, true) {
+						return "unclassified: the loop calls Read again after Read reported an error (only some errors leave the loop): a reader whose error is sticky makes it spin", false
+					}
+				}
+			}
+		}
 		return "every iteration blocks on I/O or a channel operation (directly or in a callee)", true
 	}
 	return "unclassified", false
